@@ -812,9 +812,9 @@ def run(ctx):
 
     warnings.filterwarnings("ignore")
     sy = Synth(qp)
-    NR = ctx.n(1600, 24000)     # symbolic routing cases
-    NH = ctx.n(700, 12000)     # edit histories
-    NN = ctx.n(120, 1600)        # numeric routing cases
+    NR = ctx.n(1600, 8000)     # symbolic routing cases
+    NH = ctx.n(700, 4000)     # edit histories
+    NN = ctx.n(120, 640)        # numeric routing cases
     plan = [("route", NR), ("hist", NH), ("numeric", NN)]
     if ctx.only_case is not None:
         kind = ["route", "hist", "numeric"][ctx.only_case % 3]
